@@ -48,18 +48,18 @@ private theorem lit_hash1 : ("#".toList : Str) = ['#'] := rfl
 
 /-! ### the loop state of the two generated parsers
 
-  `harness/translate_imp.py` carries the loop variables in a tuple ordered by variable name.  `vars⟨…⟩` is that tuple with
+  `harness/translate_imp.py` carries the loop variables in a tuple ordered by the Lean text of their type, then by name.  `vars⟨…⟩` is that tuple with
   its components named in the order the PROOFS use (the argument order of `srcState` / `ArenaInv`); it is the only place
   in this file that knows the generated order — if the translator permutes the tuple, permute the right-hand side of the
   macro and the type `ParseVars`, nothing else. -/
 
 /-- `vars⟨asm_header, scaffold_name, scaffold, heap_sc, asm_scaffolds, nextOid⟩`, as the generated code packs them:
-    `(asm_header, asm_scaffolds, heap_sc, nextOid, scaffold, scaffold_name)`; a term and a pattern -/
+    `(asm_scaffolds, heap_sc, asm_header, scaffold, nextOid, scaffold_name)`; a term and a pattern -/
 local macro "vars⟨" hdr:term ", " nm:term ", " sc:term ", " heap:term ", " refs:term ", " oid:term "⟩" : term =>
-  `(($hdr, $refs, $heap, $oid, $sc, $nm))
+  `(($refs, $heap, $hdr, $sc, $oid, $nm))
 
 /-- the type of that tuple (both parsers carry the same variables) -/
-abbrev ParseVars : Type := List Str × List Nat × List Scaffold × Nat × Option Nat × Str
+abbrev ParseVars : Type := List Nat × List Scaffold × List Str × Option Nat × Nat × Str
 
 /-- the loop invariant: the model's state is `srcState` of the source's variables, and the arena invariant holds -/
 def ParseRel (s : ParseVars) (t : ParseState) : Prop :=
